@@ -624,6 +624,13 @@ fn build_hvcc_fmp4(config: &FragmentConfig) -> Vec<u8> {
         num_arrays, // numOfArrays
     ];
 
+    // chromaFormat and the bit depths are those of the SPS the record carries
+    let (chroma_format, luma_minus8, chroma_minus8) =
+        crate::codec::h265::hvcc_chroma_and_depths(&config.sps);
+    payload[16] |= chroma_format;
+    payload[17] |= luma_minus8;
+    payload[18] |= chroma_minus8;
+
     // VPS array
     if let Some(vps) = &config.vps {
         payload.push(0b10100000); // array_completeness=1, reserved=0, nal_unit_type=32 (VPS)
